@@ -32,13 +32,16 @@ def install(eng, faults=FAULTS, fault_model="both"):
     """termios namespace with tcgetattr / tcsetattr over the ghost state.  Every call may raise `faults`
     (an interrupted tcsetattr may or may not have taken effect)."""
 
-    def fault(e, s, effect=None):
+    def fault(e, s, effect=None, restoring=False):
+        """a fault at this external call.  Inside a `finally` clause only the call that puts the attributes back (`restoring`) is exempt
+        (nothing can be done about a signal that interrupts the restore itself - the properties say so); any OTHER call a clean-up
+        clause makes (a drain, a read, a select) is interruptible like everywhere else, and the restore must still happen"""
         for exc in faults:
-            e.raise_(ExcVal(exc), e.fork(s), fault=True)
+            e.raise_(ExcVal(exc), e.fork(s), fault=True, in_cleanup_too=not restoring)
             if effect is not None:
                 s2 = e.fork(s)
                 effect(s2)
-                e.raise_(ExcVal(exc), s2, fault=True)
+                e.raise_(ExcVal(exc), s2, fault=True, in_cleanup_too=not restoring)
 
     def tcgetattr(e, s, a, k):
         fault(e, s)
@@ -56,7 +59,9 @@ def install(eng, faults=FAULTS, fault_model="both"):
             cc = tuple(s2.H(h[6]))
             s2.ghost["tty"] = (tuple(h[:4]) and tuple(to_bv(x) for x in h[:4]) + tuple(h[4:6]), cc)   # the terminal stores a snapshot
             s2.ghost["tcsetattr_calls"] = s2.ghost.get("tcsetattr_calls", 0) + 1
-        fault(e, s, effect)
+            if not is_sym(when) and when == _termios.TCSAFLUSH:
+                s2.ghost["stale_input"] = False        # TCSAFLUSH: change after all output is sent, DISCARDING all queued input
+        fault(e, s, effect, restoring=True)
         s = e.fork(s)
         effect(s)
         return [(None, s)]
@@ -67,6 +72,9 @@ def install(eng, faults=FAULTS, fault_model="both"):
         return [(None, s)]
     def tcflush(e, s, a, k):
         fault(e, s)             # discards queued input / output; the attribute set is not touched
+        if len(a) > 1 and not is_sym(a[1]) and a[1] in (_termios.TCIFLUSH, _termios.TCIOFLUSH):
+            s = e.fork(s)
+            s.ghost["stale_input"] = False
         return [(None, s)]
     ns = {n: getattr(_termios, n) for n in ("ECHO", "ICANON", "VMIN", "VTIME", "TCSANOW", "TCSAFLUSH", "TCSADRAIN", "TIOCGWINSZ", "TCIFLUSH", "TCOFLUSH", "TCIOFLUSH",
                                             "ISIG", "ECHONL", "OPOST")}
